@@ -385,8 +385,12 @@ Qed.
 
 Lemma sub_link_lower n l1 l0 : sub l1 l0 -> sub l1 (lv_link n l0).
 Proof.
-  induction 1 as [l|x l1 l2 Hs IH|x l1 l2 Hs IH]; [constructor| |]; cbn [lv_link];
-    destruct (nkey n <? nkey x); repeat constructor; auto.
+  induction 1 as [l|x l1 l2 Hs IH|x l1 l2 Hs IH]; [apply sub_nil| |]; cbn [lv_link];
+    destruct (nkey n <? nkey x).
+  - apply sub_skip, sub_skip, Hs.
+  - apply sub_skip, IH.
+  - apply sub_skip, sub_keep, Hs.
+  - apply sub_keep, IH.
 Qed.
 
 Lemma sub_trans {A} (l1 l2 l3 : list A) : sub l1 l2 -> sub l2 l3 -> sub l1 l3.
@@ -496,4 +500,111 @@ Theorem sk_run_inv os : skinv (sk_run os).
 Proof.
   unfold sk_run. generalize sk_init_inv. generalize sk_init. induction os as [|o os IH]; intros ls H; cbn [fold_left]; [exact H|].
   apply IH. now apply sk_step_inv.
+Qed.
+
+(** *** the level-0 traversal of the skip list is the sorted association list of the same operations *)
+Lemma map_kv_keys l : map fst (map kv l) = map nkey l.
+Proof. rewrite map_map. reflexivity. Qed.
+
+Lemma level0_map_below f h ls : ls <> [] -> (1 <= h)%nat -> level0 (map_below f h ls) = f (level0 ls).
+Proof. destruct ls as [|l r]; [congruence|]. destruct h; [lia|]. reflexivity. Qed.
+
+Lemma clamp_pos h : (1 <= clamp h)%nat.
+Proof. unfold clamp. destruct (Nat.ltb_spec h 1); [lia|]. destruct (Nat.ltb_spec MAXH h); unfold MAXH in *; lia. Qed.
+
+Lemma kv_link n l : ~ In (nkey n) (map nkey l) -> map kv (lv_link n l) = sl_put false (nkey n) (nval n) (map kv l).
+Proof.
+  induction l as [|m r IH]; cbn [lv_link map sl_put In]; intros N; [reflexivity|].
+  unfold kv at 2. destruct (nkey n <? nkey m) eqn:E; [reflexivity|].
+  destruct (Z.eqb_spec (nkey n) (nkey m)) as [Eq|_]; [exfalso; apply N; now left|].
+  cbn [map]. f_equal. apply IH. tauto.
+Qed.
+
+Lemma sl_put_present k v l : ksorted l -> In k (map fst l) -> sl_put false k v l = l.
+Proof.
+  unfold ksorted. induction l as [|[k' v'] r IH]; cbn [sl_put map fst inc In]; intros S H; [destruct H|].
+  destruct S as [F S]. destruct (Z.ltb_spec k k') as [L|L].
+  - exfalso. destruct H as [H|H]; [lia|]. rewrite Forall_forall in F. specialize (F _ H). lia.
+  - destruct (Z.eqb_spec k k') as [_|N]; [reflexivity|]. f_equal. apply IH; [exact S|]. destruct H; [congruence|assumption].
+Qed.
+
+Lemma sl_put_upd k v l : ksorted l -> In k (map fst l) -> sl_put true k v l = sl_upd k v l.
+Proof.
+  unfold ksorted. induction l as [|[k' v'] r IH]; cbn [sl_put sl_upd map fst inc In]; intros S H; [destruct H|].
+  destruct S as [F S]. destruct (Z.ltb_spec k k') as [L|L].
+  - exfalso. destruct H as [H|H]; [lia|]. rewrite Forall_forall in F. specialize (F _ H). lia.
+  - destruct (Z.eqb_spec k k') as [_|N]; [reflexivity|]. f_equal. apply IH; [exact S|]. destruct H; [congruence|assumption].
+Qed.
+
+Lemma kv_setval k v l : inc_nodes l -> map kv (lv_setval k v l) = sl_upd k v (map kv l).
+Proof.
+  unfold inc_nodes, lv_setval. induction l as [|m r IH]; cbn [map sl_upd inc]; intros S; [reflexivity|].
+  destruct S as [F S]. unfold kv at 2. destruct (Z.eqb_spec k (nkey m)) as [E|N].
+  - cbn. f_equal. rewrite <- map_map with (g := kv) (f := fun m0 => if k =? nkey m0 then (k, v, nheight m0) else m0).
+    f_equal. rewrite <- (map_id r) at 2. apply map_ext_in. intros a Ha.
+    destruct (Z.eqb_spec k (nkey a)) as [E'|_]; [|reflexivity].
+    exfalso. rewrite Forall_forall in F. specialize (F (nkey a) (in_map nkey _ _ Ha)). lia.
+  - fold (kv m). f_equal. apply IH, S.
+Qed.
+
+Lemma kv_unlink k l : inc_nodes l -> map kv (lv_unlink k l) = sl_del k (map kv l).
+Proof.
+  unfold inc_nodes, lv_unlink. induction l as [|m r IH]; cbn [map filter sl_del inc]; intros S; [reflexivity|].
+  destruct S as [F S]. unfold kv at 2. destruct (Z.eqb_spec k (nkey m)) as [E|N]; cbn [negb].
+  - f_equal. rewrite <- (map_id r) at 2. f_equal. 
+    assert (H : filter (fun m0 => negb (k =? nkey m0)) r = r).
+    { clear IH S. induction r as [|a r IHr]; cbn; [reflexivity|]. inversion F; subst.
+      destruct (Z.eqb_spec k (nkey a)); [lia|]. cbn. f_equal. auto. }
+    rewrite H. symmetry. apply map_id.
+  - cbn [map]. fold (kv m). f_equal. apply IH, S.
+Qed.
+
+Lemma unlink_last l n : inc_nodes (l ++ [n]) -> lv_unlink (nkey n) (l ++ [n]) = l.
+Proof.
+  unfold inc_nodes, lv_unlink. rewrite map_app. intros S. apply inc_app_inv in S. destruct S as (_ & _ & S).
+  rewrite filter_app. cbn. rewrite Z.eqb_refl. cbn. rewrite app_nil_r.
+  assert (H : forall a, In a l -> nkey a < nkey n) by (intros a Ha; apply S; [now apply in_map|now left]).
+  clear S. induction l as [|a r IH]; cbn; [reflexivity|].
+  destruct (Z.eqb_spec (nkey n) (nkey a)) as [E|_]; [specialize (H a (or_introl eq_refl)); lia|].
+  cbn. f_equal. apply IH. intros b Hb. apply H. now right.
+Qed.
+
+Theorem sk_step_traverse ls o h : skinv ls -> sk_traverse (sk_step ls (o, h)) = sl_step (sk_traverse ls) o.
+Proof.
+  intros (L & F & C). unfold sk_traverse.
+  assert (NE : ls <> []) by (intros ->; discriminate L).
+  assert (S0 : inc_nodes (level0 ls)).
+  { destruct ls as [|l0 r]; [congruence|]. inversion F; subst. assumption. }
+  assert (KS : ksorted (map kv (level0 ls))) by (unfold ksorted; now rewrite map_kv_keys).
+  assert (L0 : forall f, level0 (map f ls) = f (level0 ls)) by (intros f; destruct ls; [congruence|reflexivity]).
+  assert (INS : forall k v, map kv (level0 (sk_insert k v h ls)) = sl_put false k v (map kv (level0 ls))).
+  { intros k v. unfold sk_insert. destruct (lv_has k (level0 ls)) eqn:E.
+    - symmetry. apply sl_put_present; [exact KS|]. rewrite map_kv_keys. now apply lv_has_In.
+    - rewrite level0_map_below by (auto using clamp_pos). rewrite kv_link; [reflexivity|].
+      cbn. intros Hin. apply lv_has_In in Hin. congruence. }
+  destruct o as [k v|k v|k v|k| |]; cbn [sk_step sl_step].
+  - apply INS.
+  - destruct (lv_has k (level0 ls)) eqn:E.
+    + unfold sk_update. rewrite L0, kv_setval by exact S0. symmetry. apply sl_put_upd; [exact KS|].
+      rewrite map_kv_keys. now apply lv_has_In.
+    + rewrite INS. clear INS. assert (N : ~ In k (map fst (map kv (level0 ls)))).
+      { rewrite map_kv_keys. intros Hin. apply lv_has_In in Hin. congruence. }
+      clear -N KS. revert KS N. generalize (map kv (level0 ls)) as l. unfold ksorted.
+      induction l as [|[k' v'] r IH]; cbn [sl_put map fst inc In]; intros S N; [reflexivity|].
+      destruct (k <? k'); [reflexivity|]. destruct (Z.eqb_spec k k') as [->|_]; [tauto|]. f_equal. apply IH; tauto.
+  - unfold sk_update. now rewrite L0, kv_setval.
+  - unfold sk_erase. now rewrite L0, kv_unlink.
+  - destruct (level0 ls) as [|n r] eqn:E0; [now rewrite E0|].
+    unfold sk_erase. rewrite L0, E0, kv_unlink by exact S0. cbn [map sl_del tl]. unfold kv at 1. cbn [fst].
+    now rewrite Z.eqb_refl.
+  - destruct (level0 ls) as [|x r] eqn:E0 using rev_ind; [cbn; now rewrite E0|].
+    clear IHr. rewrite rev_app_distr. cbn [rev app]. unfold sk_erase. rewrite L0, E0, unlink_last by exact S0.
+    rewrite map_app. cbn [map]. now rewrite removelast_last.
+Qed.
+
+Theorem sk_run_traverse os : sk_traverse (sk_run os) = sl_run (map fst os).
+Proof.
+  unfold sk_run, sl_run. assert (H : sk_traverse sk_init = []) by reflexivity. rewrite <- H.
+  generalize sk_init_inv. generalize sk_init. induction os as [|[o h] os IH]; intros ls I; cbn [fold_left map fst]; [reflexivity|].
+  rewrite <- (sk_step_traverse o h I). apply IH. now apply sk_step_inv.
 Qed.
